@@ -59,11 +59,10 @@ impl Mon {
             }
         };
         if dt > HANG_SUSPECT_S && self.prop == "C02" {
-            self.rep.violate(
-                "slow-parse-suspect",
-                format!("parse took {dt:.1}s for {} bytes", text.len()),
-                json!({"kind":"text","phase":phase,"text":text}),
-            );
+            // it returned: slowness alone is inconclusive (a parse that never returns is
+            // caught by the child-process / shard watchdogs, also as inconclusive)
+            self.rep.inconclusive += 1;
+            self.rep.notes.push(format!("slow parse (returned): {dt:.1}s for {} bytes in phase {phase}", text.len()));
         }
         self.rep.count(if parse.errors().is_empty() { "inputs_without_errors" } else { "inputs_with_errors" }, 1);
         if self.prop == "C01" {
@@ -486,7 +485,9 @@ fn run(args: Args) -> Report {
                 }
             }
         }
-        let lens: &[usize] = if thorough { &[100, 1000, 10_000, 20_000] } else { &[100, 1000, 10_000] };
+        // dropping the tree of a long left-nested chain recurses too: go well beyond the point (~30 000
+        // links) where that overflowed a 2 MiB stack on the pinned tree
+        let lens: &[usize] = if thorough { &[100, 1000, 10_000, 50_000, 200_000] } else { &[100, 1000, 10_000, 50_000] };
         for c in CHAINS {
             for &n in lens {
                 jobs.push(("--chain".into(), format!("{}:{}", c.name, n), format!("chain:{}", c.name)));
